@@ -10,6 +10,8 @@ CLAIMED = {
          "Trusted: go/ssa lowering, govc, solver soundness, mathematical integers. The recorded-span clause (parser productions) and line:column arithmetic are listed as undecided in the evidence."),
  "C15": ("SplitStatements is proved, by a loop invariant over the token sequence Scan returns, to produce exactly one more piece than there are semicolon tokens and pieces whose join with ';' is the source byte for byte (joinSemi), with every slice in range; the cut points are the spans of TokenSemi tokens, which by Scan's verified token-class contract are single ';' bytes outside strings, quoted identifiers and comments.",
          "Trusted: as C09, plus sequence-theory facts about cat/slice and the determinism argument that lets scanOf(source) name Scan's result. The piece-in-isolation (locality) clause and the Parse correspondence are listed as undecided."),
+ "C11": ("Walk is proved, for every tree satisfying the parser's well-formedness (walkWF) and for an arbitrary visitor vis(history,node), to call the visitor with exactly the pre-order sequence Pre(n) that is generated from the traversal table of all node types (explicit-stack loop invariant PreS(stack,trace)==Pre(root), eleven inner push-loop invariants), never with a nil node (pre/visit), never reaching the panic in the default branch, and to terminate (stackSize measure). The table is cross-checked against go/types on every run so a new node-typed field cannot be skipped silently.",
+         "Trusted: go/ssa lowering, govc, solvers; walkWF of the input tree is a precondition (owed by the parser); sibling order is fixed to the documented depth-first order. Two genuine defects found by these obligations (ParenExpr panic, nil Name of an unnamed extend column) were repaired by fix: commits."),
 }
 NOT_YET = {}
 props = [json.loads(l) for l in open('/verif/properties.jsonl')]
